@@ -124,7 +124,7 @@ func ruleAvcConfigLayout(c *Ctx) {
 		if call, ok := ins.(*ssa.Call); ok && strings.HasSuffix(calleeName(&call.Call), "binary.bigEndian).PutUint16") {
 			v := stripConv(call.Call.Args[2])
 			if lc, ok := v.(*ssa.Call); ok && calleeName(&lc.Call) == "builtin.len" {
-				if f, _, ok := fieldLoad(lc.Call.Args[0]); ok && f.Name() == "PPS" {
+				if f, _, ok := fieldLoad(lc.Call.Args[0]); ok && theProgram.baseFieldName(f) == "PPS" {
 					ppsLen = true
 				}
 			}
@@ -160,7 +160,7 @@ func ruleAvcConfigLayout(c *Ctx) {
 		if !isF {
 			return
 		}
-		if f.Name() == "ConfigurationVersion" {
+		if theProgram.baseFieldName(f) == "ConfigurationVersion" {
 			if k, isK := constInt(st.Val); !isK || k != 1 {
 				ok = false
 				c.Bad("avc-config:ctor:version", p.InstrPos(st), "configurationVersion must be 1")
@@ -361,7 +361,7 @@ func rulePesHeaderConsts(c *Ctx) {
 			sameTest := false
 			instrs(fn, func(ins ssa.Instruction) {
 				cc := callCommon(ins)
-				if cc == nil || cc.StaticCallee() == nil || cc.StaticCallee().Name() != "writePts" || len(cc.Args) < 4 {
+				if cc == nil || cc.StaticCallee() == nil || baseFuncName(cc.StaticCallee()) != "writePts" || len(cc.Args) < 4 {
 					return
 				}
 				if k, isK := evalInt(cc.Args[2]); !isK || k != 1 {
@@ -444,7 +444,7 @@ func ruleFuNalHeaderBits(c *Ctx) {
 		// name the bytes of this packet's payload
 		var payload ssa.Value
 		instrs(fn, func(ins ssa.Instruction) {
-			if call, ok := ins.(*ssa.Call); ok && payload == nil && call.Call.StaticCallee() != nil && call.Call.StaticCallee().Name() == "Payload" {
+			if call, ok := ins.(*ssa.Call); ok && payload == nil && call.Call.StaticCallee() != nil && baseFuncName(call.Call.StaticCallee()) == "Payload" {
 				if origin(call.Call.Args[0]) == ssa.Value(fn.Params[1]) {
 					payload = call
 				}
@@ -487,7 +487,7 @@ func ruleFuNalHeaderBits(c *Ctx) {
 				return
 			}
 			root := origin(ia.X)
-			if f, base, isF := fieldLoad(ia.X); isF && f.Name() == "Payload" {
+			if f, base, isF := fieldLoad(ia.X); isF && theProgram.baseFieldName(f) == "Payload" {
 				// frame.Payload of the frame built here
 				if _, isAlloc := origin(base).(*ssa.Alloc); isAlloc {
 					root = base
@@ -519,7 +519,7 @@ func ruleFuNalHeaderBits(c *Ctx) {
 			case *ssa.BinOp:
 				if x.Op == token.SUB {
 					if call, isCall := stripConv(x.X).(*ssa.Call); isCall && calleeName(&call.Call) == "builtin.len" {
-						if pc, isP := origin(call.Call.Args[0]).(*ssa.Call); isP && pc.Call.StaticCallee() != nil && pc.Call.StaticCallee().Name() == "Payload" {
+						if pc, isP := origin(call.Call.Args[0]).(*ssa.Call); isP && pc.Call.StaticCallee() != nil && baseFuncName(pc.Call.StaticCallee()) == "Payload" {
 							if k, isK := evalInt(x.Y); isK {
 								ks[k] = true
 							}
@@ -528,7 +528,7 @@ func ruleFuNalHeaderBits(c *Ctx) {
 				}
 			case *ssa.Slice:
 				if x.Low != nil && x.High == nil {
-					if call, isCall := origin(x.X).(*ssa.Call); isCall && call.Call.StaticCallee() != nil && call.Call.StaticCallee().Name() == "Payload" {
+					if call, isCall := origin(x.X).(*ssa.Call); isCall && call.Call.StaticCallee() != nil && baseFuncName(call.Call.StaticCallee()) == "Payload" {
 						if k, isK := evalInt(x.Low); isK && k > 0 {
 							ks[k] = true
 						}
